@@ -341,6 +341,11 @@ func (inv *Invoice) Normalize(normalizers tax.Normalizers) {
 	tax.Normalize(normalizers, inv.Tax)
 	tax.Normalize(normalizers, inv.Supplier)
 	tax.Normalize(normalizers, inv.Customer)
+	if inv.HasTags(tax.TagCustomerRates) {
+		// the customer's country must be on the combos before they are
+		// normalized, so that the result does not change on a second pass
+		applyCustomerRates(inv)
+	}
 	tax.Normalize(normalizers, inv.Preceding)
 	tax.Normalize(normalizers, inv.Lines)
 	tax.Normalize(normalizers, inv.Discounts)
